@@ -110,6 +110,55 @@ def h_hh_cut(ctx, alpha):
     ctx.oblige("s1(r=sigma) = s1rc", O.eq(s1, s1rc))
 
 
+def h_sequence(ctx, order, shift):
+    """one PairInteractions object queried for several models in sequence: every answer equals that of a fresh object
+    (the selector and the cut-off term must not depend on what was asked before)"""
+    ctx.covers(*FUNCS)
+    hs = ctx.repo("PyMatterSim.static.hessians")
+    r = ctx.real("r", positive=True)
+    eps = ctx.real("eps", positive=True)
+    sig = ctx.real("sig", positive=True)
+    rc = ctx.real("rc", positive=True)
+    A = ctx.real("A")
+    n = Fraction(12) if ctx.mode == "sym" else 12.0
+    al = Fraction(5, 2) if ctx.mode == "sym" else 2.5
+    ctx.assume(O.lt(r, sig) if ctx.mode == "sym" else r < sig)
+
+    def ask(obj, m, via):
+        if via == "caller":
+            params = hs.InteractionParams(
+                model_name={"lj": hs.ModelName.lennard_jones, "ipl": hs.ModelName.inverse_power_law, "hh": hs.ModelName.harmonic_hertz}[m],
+                ipl_n=n, ipl_A=A, harmonic_hertz_alpha=al)
+            return obj.caller(params)
+        if m == "lj":
+            return obj.lennard_jones()
+        if m == "ipl":
+            return obj.inverse_power_law(n=n, A=A)
+        return obj.harmonic_hertz(alpha=al)
+    shared = hs.PairInteractions(r=r, epsilon=eps, sigma=sig, r_c=rc, shift=shift)
+    for k, m in enumerate(order):
+        via = "method" if k % 2 == 0 else "caller"
+        got = ask(shared, m, via)
+        want = ask(hs.PairInteractions(r=r, epsilon=eps, sigma=sig, r_c=rc, shift=shift), m, "method")
+        ctx.output(f"{k}:{m}", list(got))
+        for nm, a, b in zip(("s1", "s1rc", "s2"), got, want):
+            ctx.oblige(f"step {k} ({m} after {'+'.join(order[:k]) or 'nothing'}): {nm} as from a fresh object", O.eq(a, b))
+    # inputs of the object are not altered by the queries
+    ctx.oblige("object parameters unchanged", O.And(O.eq(shared.r, r), O.eq(shared.epsilon, eps), O.eq(shared.sigma, sig),
+                                                   O.eq(shared.r_c, rc)) & (shared.shift == shift)
+               if ctx.mode == "sym" else (shared.r == r and shared.epsilon == eps and shared.sigma == sig and shared.r_c == rc
+                                          and shared.shift == shift))
+
+
+def cfg_seq(tier, seed):
+    from itertools import permutations
+    out = []
+    for order in permutations(("lj", "ipl", "hh")):
+        for shift in (True, False):
+            out.append(dict(order=list(order), shift=shift))
+    return out
+
+
 def cfg_pair(tier, seed):
     out = []
     ns = [4, 6, 10, 12, 18, "sym"] if tier == "quick" else list(range(1, 25)) + ["sym"]
@@ -128,4 +177,4 @@ def cfg_cut(tier, seed):
     return [dict(alpha=a) for a in ("2", "5/2", "3")]
 
 
-HARNESSES = [H("pair_derivatives", h_pair, cfg_pair), H("hertz_cutoff", h_hh_cut, cfg_cut)]
+HARNESSES = [H("pair_derivatives", h_pair, cfg_pair), H("hertz_cutoff", h_hh_cut, cfg_cut), H("query_sequence", h_sequence, cfg_seq)]
